@@ -17,6 +17,8 @@ func (tp *TransportParameters) PopulateFromUQUIC(quicparams tls.TransportParamet
 		switch param.ID() {
 		case uint64(maxIdleTimeoutParameterID):
 			tp.MaxIdleTimeout = time.Duration(param.(tls.MaxIdleTimeout)) * time.Millisecond
+		case uint64(maxUDPPayloadSizeParameterID):
+			tp.MaxUDPPayloadSize = protocol.ByteCount(param.(tls.MaxUDPPayloadSize))
 		case uint64(initialMaxDataParameterID):
 			tp.InitialMaxData = protocol.ByteCount(param.(tls.InitialMaxData))
 		case uint64(initialMaxStreamDataBidiLocalParameterID):
